@@ -58,3 +58,8 @@ add("C19", "exploration",
     "Trusted: harness/mirror types (follow pogs/doc.go), mirror.FromGenerated (generated accessors as reference), ref encoder. Only aircraftlib schemas; capability-typed members are excluded from the agreement check.",
     "property-based round-trip + differential against generated accessors (rapid), recorded-tape replay of Go values",
     "DESIGN.md section 4, C19")
+add("C10", "exploration",
+    "Sequential model-based op scripts over clients, weak references and promises (incl. promise chains, calls held open inside an instrumented hook, blocking last Release/Fulfill synchronised through a build-tag yield hook) are compared after every step with a reference model of reference counts, open calls and resolution: a hook is shut down iff unreferenced (or a resolved promise) with no open call, exactly once; calls go to the hook the client resolves to or fail on released/null clients; weak upgrades succeed iff a strong reference remains; every op returns. A concurrent variant runs 2-6 goroutines that own their handles, with Gosched injected at the library's wait/lock points, under the race detector, and checks log invariants (no shutdown while a certainly-referring handle is unreleased, none during a call, exactly once at the end, no deadlock).",
+    "Trusted: the reference model; capsim hooks; the VerifYield hook points (build tag verif). Concurrent schedules are sampled by the Go scheduler plus injected yields; the sequential variant is deterministic.",
+    "stateful model-based property testing (rapid op scripts) + concurrent stress with yield-point perturbation and log invariants under -race",
+    "DESIGN.md section 5, C10")
